@@ -165,6 +165,9 @@ Eval vm_compute in [
             mz = math.log(num / den) if num > 0 else -math.inf
             if abs(lz - mz) > 1e-12:
                 run.disagree("recorded warm-up logz vs Coq model (exact Q)", iteration=k + 1, impl=lz, model=mz, **what)
+                # the model IS the statement ("the supported fraction, counted once"): a deviation is a failing input
+                run.fail("warmup-evidence-wrong", f"warm-up iteration {k + 1}: recorded logz={lz!r}; the supported-fraction estimate "
+                         f"counted once is {mz!r}", **what)
                 break
     run.count("model_cases", len(cases))
 
@@ -180,6 +183,37 @@ def all_inf_probe(run):
     except Exception as e:
         run.fail("warmup-all-inf-batch", f"a warm-up batch with zero finite draws raises {type(e).__name__}", n_particles=4,
                  finite_counts=[0, 4])
+
+
+def zero_draw_probe(run):
+    """Metropolis step with the uniform draws forced to exactly 0.0 (a legal value of np.random.rand): a proposal in the
+    zero-likelihood region has acceptance probability 0 and must still be rejected, so no -inf particle is stored."""
+    from tempest.mcmc import parallel_mcmc
+    from tempest.modes import ModeStatistics
+    orig = np.random.rand
+    for kernel in ("rwm", "tpcn"):
+        nr = np.random.RandomState(4)
+        u = np.clip(0.5 + 0.02 * nr.rand(24, 2), 0, 1)
+        x = 4 * u - 2
+        like = lambda X: (np.array([(-0.5 * float(np.sum(v ** 2)) if v[0] >= 0.0 else -np.inf) for v in X]), None)
+        logl, _ = like(x)
+        ms = ModeStatistics(np.array([[0.5, 0.5]]), np.array([np.eye(2) * 0.05]), np.array([5.0]))
+
+        def zeros(*shape):
+            return np.zeros(shape) if shape else 0.0
+
+        np.random.seed(9)
+        np.random.rand = zeros
+        try:
+            out = parallel_mcmc(u=u, x=x, logl=logl, blobs=None, assignments=np.zeros(24, dtype=int), beta=0.7, mode_stats=ms,
+                                log_likelihood=like, prior_transform=lambda v: 4 * v - 2, progress_bar=None, n_steps=1, n_max=2,
+                                sample=kernel, verbose=False)
+        finally:
+            np.random.rand = orig
+        run.case(key=("zero-draw", kernel), nontrivial=True)
+        if np.any(np.isinf(out[2])):
+            run.fail("inf-particle-accepted", f"{kernel}: with the Metropolis uniform equal to 0.0 a proposal of zero likelihood was accepted "
+                     f"({int(np.sum(np.isinf(out[2])))} walkers now have logl=-inf)", kernel=kernel)
 
 
 def beta_positive_probe(run, rng):
@@ -225,6 +259,7 @@ def main(tier, seed):
     try:
         sweep(run, tier, rng)
         all_inf_probe(run)
+        zero_draw_probe(run)
         beta_positive_probe(run, rng)
     except Exception:
         import traceback
